@@ -71,6 +71,7 @@ class Engine(ExprMixin, StmtMixin, CallMixin, BuiltinMixin, EngineBase):
         self.add_class(ClassDecl("counter[?]"))
         self.lib_models["collections.Counter"] = lambda e, p, a, k, n: [(p, e.new_object(p, "counter[?]", "counter"))]
         self.unsupported: dict[str, str] = {}
+        self.spec_ufuncs = {}       # spec-level names of uninterpreted (library) functions
         self.lemmas = []
         self.type_aliases = {"optint": TOpt(INT), "optstr": TOpt(STR)}
 
@@ -113,6 +114,9 @@ class Engine(ExprMixin, StmtMixin, CallMixin, BuiltinMixin, EngineBase):
         if not isinstance(f, ast.Name):
             return None
         name = f.id
+        if name in self.spec_ufuncs:
+            uf, rty = self.spec_ufuncs[name]
+            return self.bind(self.ev_list(node.args, p), lambda q, vs: [(q, rty.wrap([uf(*[c for v in vs for c in v.comps()])]))])
         if name in self.specfuncs and name in self.opaque_specs and name not in self.revealed:
             # opaque spec predicate: an uninterpreted function of its (flattened) arguments; its definition is
             # only revealed in the targets that list it under `reveal`
@@ -262,6 +266,18 @@ class Engine(ExprMixin, StmtMixin, CallMixin, BuiltinMixin, EngineBase):
     def sp_IntSeq(self, node, p):
         """IntSeq(a, b, ...): an immutable integer sequence literal (possibly empty) for ghost code."""
         return self.bind(self.ev_list(node.args, p), lambda q, vs: [(q, VSeq.of([coerce(v, INT) for v in vs], INT))])
+
+    def sp_prefixof(self, node, p):
+        return self.bind(self.ev_list(node.args, p), lambda q, vs: [(q, VBool(z3.PrefixOf(vs[0].z, vs[1].z)))])
+
+    def sp_suffixof(self, node, p):
+        return self.bind(self.ev_list(node.args, p), lambda q, vs: [(q, VBool(z3.SuffixOf(vs[0].z, vs[1].z)))])
+
+    def sp_strlen(self, node, p):
+        return self.bind(self.ev_list(node.args, p), lambda q, vs: [(q, VInt(z3.Length(vs[0].z)))])
+
+    def sp_charat(self, node, p):
+        return self.bind(self.ev_list(node.args, p), lambda q, vs: [(q, VStr(z3.SubString(vs[0].z, vs[1].z, 1)))])
 
     def sp_some(self, node, p):
         """some(x): the payload of an optional (meaningful only where `x is not None` is also stated)."""
